@@ -34,7 +34,7 @@ def plan(tier):
 
 
 def required(tier):
-    return ["round_run_length_cases", "all_records_known_contig", "some_records_unknown", "plain_output", "bgzip_output",
+    return ["explicit_outind_aliasing_default", "round_run_length_cases", "all_records_known_contig", "some_records_unknown", "plain_output", "bgzip_output",
             "explicit_outind", "entries_verified", "multi_chromosome", "bgzip_multi_block"]
 
 
@@ -71,10 +71,15 @@ def run_case(ctx, rng, index, casedir):
     out = os.path.join(casedir, "sorted.gaf" + (".gz" if bgz else ""))
     argv = ["sort", w.gaf, w.gfa, "--outgaf", out]
     ind = out + ".gsi"
-    if rng.random() < 0.3:
+    r_ind = rng.random()
+    if r_ind < 0.3:
         ind = os.path.join(casedir, "my.index")
         argv += ["--outind", ind]
         sit["explicit_outind"] += 1
+    elif r_ind < 0.4:
+        # the default location, named explicitly and spelled differently from --outgaf
+        argv += ["--outind", os.path.join(casedir, ".", os.path.basename(out) + ".gsi")]
+        sit["explicit_outind_aliasing_default"] += 1
     if bgz:
         argv += ["--bgzip"]
     sit["bgzip_output" if bgz else "plain_output"] += 1
@@ -103,7 +108,9 @@ def run_case(ctx, rng, index, casedir):
             text = open(out).read()
         lines = [l for l in text.split("\n") if l]
         recs = [rgaf.Rec(l) for l in lines]
-        out_sn = [r.tag("sn") for r in recs]
+        # "tagged with that contig": the sn:Z field sort appended, i.e. the last one of the record (an input
+        # record may carry an sn:Z field of its own, e.g. when a sorted file is sorted again)
+        out_sn = [next((f[5:] for f in reversed(r.fields) if f.startswith("sn:Z:")), None) for r in recs]
         contigs = sorted(set(out_sn) - {"unknown", None})
         if sorted(idx.keys()) != contigs:
             viol.append({"kind": "index_keys", "msg": f"index keys {sorted(idx.keys())} != contigs in the output {contigs}", "witness": wit})
